@@ -229,8 +229,7 @@ Proof.
     set (w4 := close_drain f cid w3) in *.
     assert (H5 : Inv (R0 L) (wsetc w4 cid (c_release (wc w4 cid)))).
     { eapply Inv_wsetc; [exact H4|]. intros c Hc'. eapply Rel_state; [exact Hc'| |auto].
-      intros HR. eapply RS_release; [exact HR| | |].
-      - intros _. apply (rs_L _ _ _ HR). left; reflexivity.
+      intros HR. eapply RS_release; [exact HR| |].
       - intros x Hx. right; exact Hx.
       - intros x [<-|Hx]; auto. }
     destruct (epctl "del" (c_fd (wc w4 cid)) false false (wsetc w4 cid (c_release (wc w4 cid))))
@@ -242,4 +241,285 @@ Proof.
     + inversion He; subst; exact H7.
     + destruct act; [inversion He; subst; exact H7| |inversion He; subst; exact H7].
       eapply Hc; [exact H7|left; reflexivity|exact He].
+Qed.
+
+Lemma st_emit : forall l w, st (emit l w) = st w.
+Proof. intros. unfold emit. destruct (halt w); reflexivity. Qed.
+
+Lemma st_ghost : forall what cid bs w, st (ghost what cid bs w) = st w.
+Proof. intros. apply st_emit. Qed.
+
+Ltac ss ::= unfold same_static, wc; rewrite ?st_ghost, ?st_emit; repeat split; reflexivity.
+
+Lemma drain_step : forall f, S_drain f -> S_drain (S f).
+Proof.
+  intros f IH L cid w Hin H. cbn [close_drain].
+  destruct (c_out (wc w cid)) eqn:Ho; [exact H|]. rewrite <- Ho.
+  destruct (sys_wr cid (c_fd (wc w cid)) (c_out (wc w cid)) false w) as [k w1] eqn:Hs.
+  pose proof (Inv_sys_wr L false PT (pstable_PT L) _ _ _ _ _ _ _ H Hs) as H1.
+  destruct k as [n extra|e|].
+  - apply IH; auto. apply Inv_setc_data0; auto. ss.
+  - destruct (is_eagain e); auto. eapply Inv_weaken; [exact H1|]. intros c _ Hc.
+    apply (RelFail_closed L false PT cid); [exact Hc|]. destruct Hc as [_ [_ [HR _]]]. apply (rs_L _ _ _ HR); auto.
+  - apply Any_Inv; auto.
+Qed.
+
+Lemma Inv_fail_open : forall L cid w,
+  Inv (RelFail L false (Popen cid) cid) w -> Inv (Rel L false (Some cid) PT) w.
+Proof.
+  intros. eapply Inv_weaken; [exact H|]. intros c _ Hc.
+  eapply Rel_P_weaken; [apply RelFail_Rel; [exact Hc|]|]; auto. intros; exact I.
+Qed.
+
+Lemma cwl_step : forall f, S_cwl f -> S_cwl (S f).
+Proof.
+  intros f IH L cid d n w rn ok w' H He. cbn [conn_write_loop] in He.
+  destruct (sys_wr cid (c_fd (wc w cid)) d true w) as [k w1] eqn:Hs.
+  pose proof (Inv_sys_wr L false (Popen cid) (pstable_Popen L cid) _ _ _ _ _ _ _ H Hs) as H1.
+  destruct k as [sent extra|e|].
+  - destruct (zdrop sent d) eqn:Hrest.
+    + inversion He; subst. exact (Rel_P_drop _ _ _ _ _ H1).
+    + rewrite <- Hrest in *. destruct (l_et (st w)).
+      * eapply IH; eauto.
+      * match type of He with (let '(_, _) := epctl ?a ?b ?c ?d ?ww in _) = _ =>
+          destruct (epctl a b c d ww) as [r w3] eqn:He3 end.
+        inversion He; subst. apply Rel_dm_drop.
+        eapply good_epctl; [apply good_R0| |exact He3].
+        apply Inv_setc_data0; [exact (Rel_P_drop _ _ _ _ _ H1)|ss].
+  - destruct (is_eagain e).
+    + destruct (l_et (st w)).
+      * inversion He; subst. apply Inv_setc_data0; [exact (Rel_P_drop _ _ _ _ _ H1)|ss].
+      * match type of He with (let '(_, _) := epctl ?a ?b ?c ?d ?ww in _) = _ =>
+          destruct (epctl a b c d ww) as [r w3] eqn:He3 end.
+        inversion He; subst. apply Rel_dm_drop.
+        eapply good_epctl; [apply good_R0| |exact He3].
+        apply Inv_setc_data0; [exact (Rel_P_drop _ _ _ _ _ H1)|ss].
+    + inversion He; subst. apply Inv_fail_open; exact H1.
+  - inversion He; subst. apply Any_Inv; exact H1.
+Qed.
+
+Lemma cwvl_step : forall f, S_cwvl f -> S_cwvl (S f).
+Proof.
+  intros f IH L cid segs n w rn ok w' H He. cbn [conn_writev_loop] in He.
+  destruct (sys_wr cid (c_fd (wc w cid)) (List.concat (firstn 1024 segs)) true w) as [k w1] eqn:Hs.
+  pose proof (Inv_sys_wr L false (Popen cid) (pstable_Popen L cid) _ _ _ _ _ _ _ H Hs) as H1.
+  destruct k as [sent extra|e|].
+  - destruct (List.concat (drop_sent sent segs)) eqn:Hrest.
+    + inversion He; subst. exact (Rel_P_drop _ _ _ _ _ H1).
+    + rewrite <- Hrest in *. destruct (l_et (st w)).
+      * eapply IH; eauto.
+      * match type of He with (let '(_, _) := epctl ?a ?b ?c ?d ?ww in _) = _ =>
+          destruct (epctl a b c d ww) as [r w3] eqn:He3 end.
+        inversion He; subst. apply Rel_dm_drop.
+        eapply good_epctl; [apply good_R0| |exact He3].
+        apply Inv_setc_data0; [exact (Rel_P_drop _ _ _ _ _ H1)|ss].
+  - destruct (is_eagain e).
+    + destruct (l_et (st w)).
+      * inversion He; subst. apply Inv_setc_data0; [exact (Rel_P_drop _ _ _ _ _ H1)|ss].
+      * match type of He with (let '(_, _) := epctl ?a ?b ?c ?d ?ww in _) = _ =>
+          destruct (epctl a b c d ww) as [r w3] eqn:He3 end.
+        inversion He; subst. apply Rel_dm_drop.
+        eapply good_epctl; [apply good_R0| |exact He3].
+        apply Inv_setc_data0; [exact (Rel_P_drop _ _ _ _ _ H1)|ss].
+    + inversion He; subst. apply Inv_fail_open; exact H1.
+  - inversion He; subst. apply Any_Inv; exact H1.
+Qed.
+
+Lemma Inv_assert_open : forall L w cid,
+  Inv (R0 L) w -> c_opened (wc w cid) = true -> Inv (Rel L false None (Popen cid)) w.
+Proof.
+  intros L w cid H Ho. eapply Inv_weaken; [exact H|]. intros c _ Hc.
+  eapply Rel_P_weaken; [exact Hc|]. intros _ _. exact Ho.
+Qed.
+
+Lemma cw_step : forall f, S_cwl f -> S_close f -> S_cw (S f).
+Proof.
+  intros f Hl Hc L cid d w r w' H He. cbn [conn_write] in He.
+  destruct (c_opened (wc w cid)) eqn:Ho; cbn [negb] in He; [|inversion He; subst; exact H].
+  destruct (c_out (wc w cid)) eqn:Hout.
+  - destruct (conn_write_loop f cid d (zlen d) (ghost "sub" cid d w)) as [[rn ok] w1] eqn:Hl1.
+    assert (H1 : Inv (Rel L false (if ok then None else Some cid) PT) w1).
+    { eapply Hl; [|exact Hl1]. apply good_ghost; try discriminate.
+      - apply good_Rel. apply pstable_Popen.
+      - apply Inv_assert_open; auto. }
+    destruct ok; [inversion He; subst; exact H1|].
+    destruct (el_close f cid false w1) as [r2 w2] eqn:Hc2. inversion He; subst.
+    eapply Hc; [exact H1|right; auto|exact Hc2].
+  - inversion He; subst. apply Inv_setc_data0; [|ss].
+    apply good_ghost; try discriminate; auto. apply good_R0.
+Qed.
+
+Lemma cwv_step : forall f, S_cwvl f -> S_close f -> S_cwv (S f).
+Proof.
+  intros f Hl Hc L cid segs w r w' H He. cbn [conn_writev] in He.
+  destruct (c_opened (wc w cid)) eqn:Ho; cbn [negb] in He; [|inversion He; subst; exact H].
+  assert (Hg : Inv (R0 L) (ghost "sub" cid (List.concat segs) w)).
+  { apply good_ghost; try discriminate; auto. apply good_R0. }
+  destruct (c_out (wc w cid)) eqn:Hout.
+  - destruct segs as [|sg segs]; [inversion He; subst; exact Hg|].
+    destruct (conn_writev_loop f cid (sg :: segs) (zlen (List.concat (sg :: segs)))
+               (ghost "sub" cid (List.concat (sg :: segs)) w)) as [[rn ok] w1] eqn:Hl1.
+    assert (H1 : Inv (Rel L false (if ok then None else Some cid) PT) w1).
+    { eapply Hl; [|exact Hl1]. apply good_ghost; try discriminate.
+      - apply good_Rel. apply pstable_Popen.
+      - apply Inv_assert_open; auto. }
+    destruct ok; [inversion He; subst; exact H1|].
+    destruct (el_close f cid false w1) as [r2 w2] eqn:Hc2. inversion He; subst.
+    eapply Hc; [exact H1|right; auto|exact Hc2].
+  - inversion He; subst. apply Inv_setc_data0; [exact Hg|ss].
+Qed.
+
+Lemma w_step : forall f, S_w f -> S_close f -> S_w (S f).
+Proof.
+  intros f Hw Hc L cid sent w r w' H He. cbn [el_write] in He.
+  destruct (c_opened (wc w cid)) eqn:Ho; cbn [negb] in He; [|inversion He; subst; exact H].
+  destruct (c_out (wc w cid)) eqn:Hout; [inversion He; subst; exact H|]. rewrite <- Hout in *.
+  destruct (sys_wr cid (c_fd (wc w cid)) (c_out (wc w cid)) false w) as [k w1] eqn:Hs.
+  pose proof (Inv_sys_wr L false (Popen cid) (pstable_Popen L cid) _ _ _ _ _ _ _
+                (Inv_assert_open _ _ _ H Ho) Hs) as H1.
+  destruct k as [n extra|e|].
+  - set (w2 := wsetc w1 cid (c_set_out (wc w1 cid) (zdrop n (c_out (wc w1 cid))))) in *.
+    assert (H2 : Inv (R0 L) w2) by (apply Inv_setc_data0; [exact (Rel_P_drop _ _ _ _ _ H1)|ss]).
+    destruct (zdrop n (c_out (wc w1 cid))) eqn:Hrest.
+    + destruct (l_et (st w)); [inversion He; subst; exact H2|].
+      eapply good_epctl; [apply good_R0|exact H2|exact He].
+    + destruct (l_et (st w)); [|inversion He; subst; exact H2].
+      destruct (sent + n <? l_chunk (st w2)).
+      * eapply Hw; eauto.
+      * eapply Inv_trigger; [exact H2| |exact He]. right; left; eauto.
+  - destruct (is_eagain e); [inversion He; subst; exact (Rel_P_drop _ _ _ _ _ H1)|].
+    eapply Hc; [apply Inv_fail_open; exact H1|right; auto|exact He].
+  - inversion He; subst. apply Any_Inv; exact H1.
+Qed.
+
+Lemma h_step : forall f, S_h f -> S_hc f -> S_h (S f).
+Proof.
+  intros f Hh Hhc L cid w r w' H He.
+  destruct (handler_cases _ _ _ _ _ He) as [o [w1 [Hp Hc]]].
+  pose proof (Inv_pull _ (Rel_stable L false None PT (pstable_PT L)) _ _ _ H Hp) as HP.
+  destruct Hc as [[-> ->]|[[a [rest [-> ->]]]|[[call [args [-> Hrec]]]|[l [-> ->]]]]].
+  - apply Any_Inv; exact HP.
+  - eapply Inv_weaken; [exact HP|]. intros c _ Hc. eapply after_not_r; [|exact Hc]. discriminate.
+  - eapply Hh; [|exact Hrec]. apply Hhc.
+    eapply Inv_weaken; [exact HP|]. intros c _ Hc. eapply after_not_r; [|exact Hc]. discriminate.
+  - eapply Inv_any_desync; exact HP.
+Qed.
+
+Ltac data_tac L H :=
+  repeat first
+    [ exact H
+    | apply Inv_hr
+    | apply Inv_setc_data0; [|ss]
+    | apply (Inv_any_desync (R0 L))
+    | apply good_ghost; [apply good_R0|discriminate|discriminate|discriminate|]
+    | match goal with
+      | |- Inv _ (if ?b then _ else _) => destruct b
+      | |- Inv _ (match ?x with _ => _ end) => destruct x
+      end ].
+
+Lemma hc_step : forall f, S_cw f -> S_cwv f -> S_w f -> S_close f -> S_hc f -> S_hc (S f).
+Proof.
+  intros f Hcw Hcwv Hw Hc Hhc L cid call args w H. cbn [hcall].
+  destruct (sym_eqb call "read"); [data_tac L H|].
+  destruct (sym_eqb call "next"); [data_tac L H|].
+  destruct (sym_eqb call "peek"); [data_tac L H|].
+  destruct (sym_eqb call "discard"); [data_tac L H|].
+  destruct (sym_eqb call "writeto"); [data_tac L H|].
+  destruct (sym_eqb call "inbuf"); [data_tac L H|].
+  destruct (sym_eqb call "outbuf"); [data_tac L H|].
+  destruct (sym_eqb call "write").
+  { destruct args as [|[z|d|s] [|a2 args]]; try (eapply Inv_any_desync; exact H).
+    destruct (c_udp (wc w cid)).
+    - destruct (negb (c_remote (wc w cid)) && negb (c_opened (wc w cid))); [apply Inv_hr; exact H|].
+      destruct (sys "sendto" [AInt (c_fd (wc w cid)); ABytes d; bool_arg (c_remote (wc w cid))] w)
+        as [k w1] eqn:Hs.
+      assert (H1 : Inv (R0 L) w1) by (eapply good_sys; [apply good_R0| |exact H|exact Hs]; plain_sys_tac).
+      destruct k; apply Inv_hr; exact H1.
+    - destruct (conn_write f cid d w) as [[n ok] w1] eqn:E.
+      apply Inv_hr. eapply Hcw; eauto. }
+  destruct (sym_eqb call "writev").
+  { destruct (c_udp (wc w cid)); [apply Inv_hr; exact H|].
+    destruct (conn_writev f cid (segs_of args) w) as [[n ok] w1] eqn:E.
+    apply Inv_hr. eapply Hcwv; eauto. }
+  destruct (sym_eqb call "flush").
+  { destruct (c_udp (wc w cid)); [apply Inv_hr; exact H|].
+    destruct (negb (c_opened (wc w cid))); [apply Inv_hr; exact H|].
+    destruct (el_write f cid 0 w) as [r w1] eqn:E.
+    pose proof (Hw _ _ _ _ _ _ H E) as H1.
+    destruct r; try (apply Inv_hr; exact H1).
+    destruct (negb (l_et (st w1)) && c_opened (wc w1 cid) &&
+              match c_out (wc w1 cid) with [] => false | _ :: _ => true end); [|apply Inv_hr; exact H1].
+    destruct (epctl "mod" (c_fd (wc w1 cid)) true false w1) as [r2 w2] eqn:E2.
+    apply Inv_hr. eapply good_epctl; [apply good_R0|exact H1|exact E2]. }
+  destruct (sym_eqb call "readfrom"); [data_tac L H|].
+  destruct (sym_eqb call "asyncwrite").
+  { destruct args as [|[z|d|s] [|cb [|a3 args]]]; try (eapply Inv_any_desync; exact H).
+    destruct (c_udp (wc w cid)).
+    - match goal with |- context [sys "sendto" ?a ?ww] =>
+        destruct (sys "sendto" a ww) as [k w1] eqn:Hs;
+        assert (H1 : Inv (R0 L) w1)
+          by (eapply good_sys; [apply good_R0| | |exact Hs]; [plain_sys_tac|];
+              destruct (negb (c_remote (wc w cid)) && negb (c_opened (wc w cid))); [|exact H];
+              apply good_ghost; [apply good_R0|discriminate|discriminate|discriminate|exact H])
+      end.
+      apply Inv_hr. destruct (flag_of cb); [|exact H1].
+      apply good_emit; [apply good_R0|plain_tac|exact H1].
+    - destruct (trigger false (TAsyncWrite cid d (flag_of cb)) w) as [r w1] eqn:E.
+      apply Inv_hr. eapply Inv_trigger; [exact H| |exact E]. left; exact I. }
+  destruct (sym_eqb call "asyncwritev").
+  { destruct args as [|cb segs]; [eapply Inv_any_desync; exact H|].
+    destruct (c_udp (wc w cid)); [apply Inv_hr; exact H|].
+    destruct (trigger false (TAsyncWritev cid (segs_of segs) (flag_of cb)) w) as [r w1] eqn:E.
+    apply Inv_hr. eapply Inv_trigger; [exact H| |exact E]. left; exact I. }
+  destruct (sym_eqb call "wake").
+  { destruct args as [|cb [|a2 args]]; try (eapply Inv_any_desync; exact H).
+    destruct (trigger true (TWake cid (flag_of cb)) w) as [r w1] eqn:E.
+    apply Inv_hr. eapply Inv_trigger; [exact H| |exact E]. left; exact I. }
+  destruct (sym_eqb call "close").
+  { destruct args as [|cb [|a2 args]]; try (eapply Inv_any_desync; exact H).
+    destruct (trigger true (TClose cid (flag_of cb)) w) as [r w1] eqn:E.
+    apply Inv_hr. eapply Inv_trigger; [exact H| |exact E]. left; exact I. }
+  destruct (sym_eqb call "elclose").
+  { match goal with |- context [el_close f ?t true w] =>
+      destruct (el_close f t true w) as [r w1] eqn:E;
+      assert (H1 : Inv (R0 L) w1) by (eapply Hc; [exact H|left; reflexivity|exact E]) end.
+    apply Inv_hr; exact H1. }
+  destruct (sym_eqb call "on").
+  { destruct args as [|[t|b1|s1] [|[z|b2|call'] args']]; try (eapply Inv_any_desync; exact H).
+    destruct (c_opened (wc w t)); [apply Hhc; exact H|eapply Inv_any_desync; exact H]. }
+  eapply Inv_any_desync; exact H.
+Qed.
+
+Record Block (f : nat) : Prop := mkBlock {
+  b_close : S_close f; b_drain : S_drain f; b_cw : S_cw f; b_cwl : S_cwl f;
+  b_cwvl : S_cwvl f; b_cwv : S_cwv f; b_w : S_w f; b_h : S_h f; b_hc : S_hc f
+}.
+
+Lemma block_O : Block O.
+Proof.
+  constructor.
+  - intros L cid e dm w r w' H _ He. cbn in He. inversion He; subst. eapply Inv_any_desync; exact H.
+  - intros L cid w _ H. cbn. eapply Inv_any_desync; exact H.
+  - intros L cid d w r w' H He. cbn in He. inversion He; subst. eapply Inv_any_desync; exact H.
+  - intros L cid d n w rn ok w' H He. cbn in He. inversion He; subst. eapply Inv_any_desync; exact H.
+  - intros L cid d n w rn ok w' H He. cbn in He. inversion He; subst. eapply Inv_any_desync; exact H.
+  - intros L cid d w r w' H He. cbn in He. inversion He; subst. eapply Inv_any_desync; exact H.
+  - intros L cid d w r w' H He. cbn in He. inversion He; subst. eapply Inv_any_desync; exact H.
+  - intros L cid w r w' H He. cbn in He. inversion He; subst. eapply Inv_any_desync; exact H.
+  - intros L cid call args w H. cbn. eapply Inv_any_desync; exact H.
+Qed.
+
+Theorem block : forall f, Block f.
+Proof.
+  induction f as [|f IH]; [exact block_O|]. destruct IH.
+  constructor.
+  - apply close_step; auto.
+  - apply drain_step; auto.
+  - apply cw_step; auto.
+  - apply cwl_step; auto.
+  - apply cwvl_step; auto.
+  - apply cwv_step; auto.
+  - apply w_step; auto.
+  - apply h_step; auto.
+  - apply hc_step; auto.
 Qed.
